@@ -863,6 +863,11 @@ func (s *State) expectReceive(e *Expect, msg *ct.MsgReceiveMessage) {
 		e.Conds |= B1MintNotPaused
 		e.fail("mint-paused", "C03", "C12")
 	}
+	mess, has := s.Messengers[m.SrcDomain]
+	if !has || !bytes.Equal(mess, m.Sender) {
+		e.Conds |= B4Messenger
+		e.fail("sender-not-messenger", "C03")
+	}
 	bm, err := ref.DecodeBurn(m.Body)
 	if err != nil {
 		e.Conds |= B2BodyLen
@@ -872,11 +877,6 @@ func (s *State) expectReceive(e *Expect, msg *ct.MsgReceiveMessage) {
 	if bm.Version != 0 {
 		e.Conds |= B3BodyVersion
 		e.fail("body-version", "C03")
-	}
-	mess, has := s.Messengers[m.SrcDomain]
-	if !has || !bytes.Equal(mess, m.Sender) {
-		e.Conds |= B4Messenger
-		e.fail("sender-not-messenger", "C03")
 	}
 	local, linked := s.Pairs[pairKey{m.SrcDomain, string(bm.BurnToken)}]
 	if !linked {
